@@ -37,3 +37,89 @@ class FromGlobal(Contract):
 
     def x_incomplete(self, E, old, st, a, exc):
         return []
+
+
+# ----------------------------------------------------------------------------------------------------------------------------------------
+# to_global: the snapshot a oneway-call thread is started from
+
+@R.model("Pyro5.callcontext._CallContext")
+class ContextModel:
+    """the context object: `self.__dict__` is a live view of its attributes (CPython instance dictionary)"""
+
+    def getattr(self, E, st, obj, name):
+        if name == "__dict__":
+            return [Res(st, st.new_obj("instance_dict_view", of=obj))]
+        return None
+
+    methods = {}
+
+
+@R.model("instance_dict_view")
+class InstanceDictView:
+    def getattr(self, E, st, obj, name):
+        return None
+
+    methods = {}
+
+
+_prev_dict = R.specs.get("builtins.dict")
+
+
+@R.spec("builtins.dict", doc="dict(<instance __dict__>): a NEW dict holding the attributes the instance has at that moment (name -> value)")
+def b_dict_copy(E, st, args, kw):
+    if len(args) == 1 and isinstance(args[0], VObj) and args[0].cls == "instance_dict_view" and not kw:
+        src = st.get(args[0], "of")
+        fields = {k: v for k, v in st.heap[src.ref].items() if not k.startswith("__")}
+        return [Res(st, st.new_obj("dict_snapshot", fields=dict(fields)))]
+    if _prev_dict is None:
+        raise Unsupported("dict(%r)" % (args,))
+    return _prev_dict(E, st, args, kw)
+
+
+@R.model("dict_snapshot")
+class DictSnapshot:
+    """a dict with a statically known key set (string keys)"""
+
+    def getattr(self, E, st, obj, name):
+        return None
+
+    def m_getitem(self, E, st, obj, args, kw):
+        k = args[0]
+        fields = st.get(obj, "fields")
+        if isinstance(k, VStr) and z3.is_string_value(z3.simplify(k.e)):
+            name = z3.simplify(k.e).as_string()
+            if name in fields:
+                return [Res(st, fields[name])]
+            return [E.raise_(st, "builtins.KeyError")]
+        raise Unsupported("snapshot[%r]" % (k,))
+
+    methods = {"__getitem__": m_getitem}
+
+
+@R.contract
+class ToGlobal(Contract):
+    name = "Pyro5.callcontext._CallContext.to_global"
+    props = ("C12",)
+    raises = {}
+    no_join = True
+
+    def setup(self, E, st):
+        self.ctx = st.new_obj("Pyro5.callcontext._CallContext")
+        self.vals = {}
+        for f in FIELDS:
+            self.vals[f] = VOpaque(z3.Const("cur_" + f, U))
+            st.set(self.ctx, f, self.vals[f])
+        return {"self": self.ctx}
+
+    def ensures(self, E, old, st, a, result):
+        ok = isinstance(result, VObj) and result.cls == "dict_snapshot"
+        if not ok:
+            return [("the snapshot is a new dict", z3.BoolVal(False))]
+        fields = st.get(result, "fields")
+        post = [("the snapshot is a new dict, not the context's own attribute dictionary (later changes of the context do not reach it)", z3.BoolVal(result.ref != self.ctx.ref))]
+        for f in FIELDS:
+            v = fields.get(f)
+            post.append(("the snapshot holds the current value of %s" % f, v.e == self.vals[f].e if isinstance(v, VOpaque) else z3.BoolVal(False)))
+        post.append(("and nothing else", z3.BoolVal(set(fields) == set(FIELDS))))
+        post.append(("the context itself is unchanged", z3.And(*[st.get(self.ctx, f).e == self.vals[f].e for f in FIELDS])))
+        return post
